@@ -99,6 +99,7 @@ type AuthSpec struct {
 	TargetInfo                []byte
 	Timestamp                 []byte // 8 bytes
 	ClientChallenge           []byte // 8 bytes
+	Layout                    string // "" = version and MIC present; "noversion" = NEGOTIATE_VERSION clear, version bytes zero; "short" = neither version nor MIC in the header (payload at 64); "nomic" = version but no MIC (payload at 72)
 }
 
 // Authenticate builds a type-3 message; it also returns the blob and the proof it carries.
@@ -108,7 +109,13 @@ func Authenticate(a AuthSpec) (msg, blob, proof []byte) {
 	nt := append(append([]byte(nil), proof...), blob...)
 	lm := append(hmacMD5(a.Key, append(append([]byte(nil), a.ServerChallenge...), a.ClientChallenge...)), a.ClientChallenge...)
 	dom, usr, ws := utf16le(a.Domain), utf16le(a.User), utf16le(a.Workstation)
-	const hdr = 88
+	hdr := 88
+	switch a.Layout {
+	case "short":
+		hdr = 64
+	case "nomic":
+		hdr = 72
+	}
 	b := make([]byte, hdr)
 	copy(b, sig)
 	binary.LittleEndian.PutUint32(b[8:], 3)
@@ -125,10 +132,16 @@ func Authenticate(a AuthSpec) (msg, blob, proof []byte) {
 	field(12, lm)
 	field(20, nt)
 	field(52, nil) // no encrypted session key
-	binary.LittleEndian.PutUint32(b[60:], 0x00000001|0x00000200|0x00008000|0x00080000|0x02000000|0x20000000|0x80000000)
-	b[64], b[65] = 6, 1
-	binary.LittleEndian.PutUint16(b[66:], 7601)
-	b[71] = 15
+	flags := uint32(0x00000001 | 0x00000200 | 0x00008000 | 0x00080000 | 0x02000000 | 0x20000000 | 0x80000000)
+	if a.Layout == "noversion" || a.Layout == "short" {
+		flags &^= 0x02000000
+	}
+	binary.LittleEndian.PutUint32(b[60:], flags)
+	if a.Layout == "" || a.Layout == "nomic" {
+		b[64], b[65] = 6, 1
+		binary.LittleEndian.PutUint16(b[66:], 7601)
+		b[71] = 15
+	}
 	// MIC (72..88) left zero
 	b = append(b, dom...)
 	b = append(b, usr...)
